@@ -13,6 +13,9 @@ import (
 
 type C07Case struct {
 	Blocks []Block `json:"blocks"`
+	// High > 0: a second light client follows the same forest embedded behind High opaque leaves
+	// (layouts of up to 63 rows); its cached proof must be the shifted canonical one.
+	High uint64 `json:"high,omitempty"`
 }
 
 // genRememberBlock is genBlock with the remember classes C07 names forced often.
@@ -57,6 +60,7 @@ func genC07(t *rapid.T) C07Case {
 	for i := 0; i < n; i++ {
 		c.Blocks = append(c.Blocks, genRememberBlock(t, f, lim, 0))
 	}
+	c.High = genHigh(t, lim.maxLeaves)
 	return c
 }
 
@@ -117,6 +121,10 @@ func runC07(c C07Case) *Result {
 	lc := &lightClient{}
 	pol := newInst(Cfg{Kind: "pollard"})
 	expect := map[int]bool{}
+	big := &lightClient{stump: u.Stump{Roots: highRoots(c.High), NumLeaves: c.High}}
+	if c.High != 0 {
+		res.class(fmt.Sprintf("embedded:rows=%d", model.Rows(c.High+1)))
+	}
 	for i, b := range c.Blocks {
 		for _, s := range b.Del {
 			if s < 0 || s >= len(f.Dead) || f.Dead[s] {
@@ -156,6 +164,20 @@ func runC07(c C07Case) *Result {
 		if err := checkCachedProof(f, lc.stump, lc.hashes, lc.proof, expect, true); err != nil {
 			return res.failf("after block %d {del %v, add %d, remember %v}: %v", i, b.Del, b.Add, b.Rem, err)
 		}
+		if c.High != 0 {
+			if !highOK(c.High, f.N()) {
+				return res.failf("case error: %d leaves do not fit below the opaque trees of %d leaves", f.N(), c.High)
+			}
+			bp := u.Proof{Targets: embedAll(proof.Targets, v, c.High), Proof: cloneHashes(proof.Proof)}
+			bw := fmt.Sprintf("after block %d {del %v, add %d, remember %v}, embedded behind %d opaque leaves (%d rows)", i, b.Del, b.Add, b.Rem, c.High, model.Rows(c.High+f.N()))
+			if err := big.update(delH, bp, addH, b.Rem); err != nil {
+				return res.failf("%s: updating the light client failed: %v", bw, err)
+			}
+			if err := checkCachedProofEmbedded(f, c.High, big.stump, big.hashes, big.proof, expect); err != nil {
+				return res.failf("%s: %v", bw, err)
+			}
+			res.count("embedded_blocks", 1)
+		}
 		if len(lc.hashes) > 0 {
 			full, err := pol.P.Prove(cloneHashes(lc.hashes))
 			if err == nil && !eqProof(full, lc.proof) {
@@ -192,4 +214,46 @@ func runC07(c C07Case) *Result {
 
 func TestC07(t *testing.T) {
 	runSpec(t, Spec[C07Case]{ID: "C07", Gen: genC07, Run: runC07})
+}
+
+// checkCachedProofEmbedded is checkCachedProof for a light client that follows the forest f embedded
+// behind `high` opaque leaves: exactly the expected leaves, each at its shifted position, the same
+// canonical proof hashes, accepted by Verify against the embedded stump.
+func checkCachedProofEmbedded(f *model.Forest, high uint64, stump u.Stump, hashes []Hash, proof u.Proof, expect map[int]bool) error {
+	v2 := f.View()
+	if len(hashes) != len(proof.Targets) {
+		return fmt.Errorf("%d cached hashes but %d targets", len(hashes), len(proof.Targets))
+	}
+	held := map[int]bool{}
+	for k, h := range hashes {
+		p, live := v2.LeafPos[h]
+		if !live {
+			return fmt.Errorf("cached hash %s is not a live leaf", shortH(h))
+		}
+		slot := v2.NodeAt[p].Slot
+		if held[slot] {
+			return fmt.Errorf("the leaf of slot %d is cached twice", slot)
+		}
+		held[slot] = true
+		if want := embedPos(p, v2, high); proof.Targets[k] != want {
+			return fmt.Errorf("cached leaf of slot %d is paired with position %d, its position is %d", slot, proof.Targets[k], want)
+		}
+	}
+	for sl := range expect {
+		if !held[sl] {
+			return fmt.Errorf("the leaf of slot %d should be held but is missing from the cached proof (held positions %v)", sl, proof.Targets)
+		}
+	}
+	if len(held) != len(expect) {
+		return fmt.Errorf("the cached proof holds %d leaves, expected exactly %d", len(held), len(expect))
+	}
+	if want := v2.Proof(hashes); !eqHashes(want.Proof, proof.Proof) {
+		return fmt.Errorf("cached proof hashes %s are not the canonical ones %s (positions %v)", shortHs(proof.Proof), shortHs(want.Proof), proof.Targets)
+	}
+	if len(hashes) > 0 {
+		if _, err := u.Verify(copyStump(stump), cloneHashes(hashes), cloneProof(proof)); err != nil {
+			return fmt.Errorf("Verify rejects the cached proof: %v", err)
+		}
+	}
+	return nil
 }
